@@ -151,17 +151,20 @@ class Gen:
                         'DATE', 'YEAR', 'EDATE', 'DAYS', 'FIND', 'REPLACE', 'VLOOKUP', 'NPV', 'SLN', 'WEEKDAY',
                         'ROUND', 'INT', 'ABS', 'MOD', 'CEILING', 'SIGN', 'POWER', 'SQRT', 'ISEVEN'])
         x = self.any_ref(home)
+        # (a number with a fraction at a date-typed position meets the known finding F-C18-01 - the time of day of a serial is
+        #  converted wrongly - which is C18's business: the driver only hands whole serials to date parameters)
+        whole = S.bin_('+', S.call('INT', [x]), S.num('40000'))
         if f == 'DATE':
             return S.call('DATE', [S.num(str(rng.choice([1900, 2020, 2024]))), rng.choice([S.num(str(rng.randint(-2, 14))), x]), S.num(str(rng.randint(-3, 33)))])
         if f == 'YEAR':
             d = S.call('DATE', [S.num('2020'), S.num(str(rng.randint(1, 12))), S.num(str(rng.randint(1, 28)))])
-            return S.call(rng.choice(['YEAR', 'MONTH', 'DAY']), [rng.choice([d, x])])
+            return S.call(rng.choice(['YEAR', 'MONTH', 'DAY']), [rng.choice([d, whole])])
         if f == 'EDATE':
             d = S.call('DATE', [S.num('2020'), S.num(str(rng.randint(1, 12))), S.num(str(rng.choice([1, 15, 28, 30, 31])))])
-            return S.call(rng.choice(['EDATE', 'EOMONTH']), [rng.choice([d, d, x]), S.num(str(rng.randint(-13, 13)))])
+            return S.call(rng.choice(['EDATE', 'EOMONTH']), [rng.choice([d, d, whole]), S.num(str(rng.randint(-13, 13)))])
         if f == 'DAYS':
             d = S.call('DATE', [S.num('2021'), S.num(str(rng.randint(1, 12))), S.num(str(rng.randint(1, 28)))])
-            return S.call('DAYS', [d, rng.choice([x, S.call('DATE', [S.num('2020'), S.num('3'), S.num('1')])])])
+            return S.call('DAYS', [d, rng.choice([whole, S.call('DATE', [S.num('2020'), S.num('3'), S.num('1')])])])
         if f == 'WEEKDAY':
             return S.call('WEEKDAY', [S.call('DATE', [S.num('2020'), S.num(str(rng.randint(1, 12))), S.num(str(rng.randint(1, 28)))]), S.num(str(rng.choice([1, 2, 3, 11, 17])))])
         if f == 'FIND':
